@@ -177,7 +177,7 @@ def _site(n1, n2):
 LISTINGS = ["/", "/d", "/d/sub", "/d/m.gophermap"]
 
 
-CNAMES = ["a", "a b", "q?x", "x|y", "%41", "~t", "a#b", "\udcff", "é.txt", "x.html"]
+CNAMES = ["a", "a b", "q?x", "x|y", "%41", "~t", "a#b", "\udcff", "é.txt", "x.html", "M.GOPHERMAP", "n.Html"]  # the last two: case variants of extensions that select handlers
 
 
 def body_closure(i1: int, i2: int, li: int) -> bool:
